@@ -173,6 +173,29 @@ fn gen_args(ctx: &mut Ctx) -> Args {
             }
         }
     }
+    if ctx.chance(1, 24) && a.hi != 0.0 && a.hi.is_finite() {
+        // the mirror image: the PRODUCT or QUOTIENT lands in the last binade before overflow (up to
+        // exactly +-f64::MAX: one factor a power of two, the other with an all-ones significand),
+        // where a final Fast2Sum overflows or a "saturating" repair shows
+        ctx.label("rel:result-at-the-top");
+        let t = ctx.range(1021, 1024);
+        let mul = ctx.flag();
+        let eb = if mul { t - exponent(a.hi) } else { exponent(a.hi) - t };
+        if (-1000..=999).contains(&eb) {
+            let m = match ctx.below(3) {
+                0 => 0,
+                1 => (1u64 << 52) - 1,
+                _ => mantissa(ctx),
+            };
+            let hi = f64::from_bits(((ctx.flag() as u64) << 63) | (((eb + 1023) as u64) << 52) | m);
+            b = if ctx.flag() { Dd::new(hi, 0.0) } else { dd_at(ctx, hi) };
+            if ctx.flag() {
+                let am = if ctx.flag() { (1u64 << 52) - 1 } else { 0 };
+                let ah = f64::from_bits((a.hi.to_bits() & !((1u64 << 52) - 1)) | am);
+                a = dd_at(ctx, ah);
+            }
+        }
+    }
     let c = operand(ctx);
     let mut f = operand_f64(ctx, a);
     let mut g = operand_f64(ctx, Dd::new(f, 0.0));
@@ -565,6 +588,22 @@ fn c11_verdict(ctx: &mut Ctx, name: &str, x: &Args, a: &Out, b: &Out, msg: Strin
 /// integer powers whose repeated squaring passes through the subnormal range (the error terms of
 /// the squares underflow to signed zeros there)
 fn powi_through_subnormals(ctx: &mut Ctx, x: &mut Args) {
+    if ctx.chance(1, 3) {
+        // |a|^n within a few ulps of the overflow threshold: a next to 2^(1024/n) (or its
+        // reciprocal for negative n), where a one-word estimate of the power and the double-double
+        // loop disagree about "finite"
+        ctx.label("powi:result-at-the-overflow-threshold");
+        let n = if ctx.flag() { ctx.range(2, 64) } else { ctx.range(2, 4000) };
+        let r = (1024.0 / n as f64).exp2();
+        let neg_n = ctx.flag();
+        let base = if neg_n { 1.0 / r } else { r };
+        let hi = step(base, ctx.range(-40, 40));
+        let hi = if ctx.flag() { -hi } else { hi };
+        let d = if ctx.flag() { Dd::new(hi, 0.0) } else { dd_at(ctx, hi) };
+        x.a = (d.hi, d.lo);
+        x.n = if neg_n { -(n as i32) } else { n as i32 };
+        return;
+    }
     if ctx.flag() {
         // n = 2^(k+1) - 1 - j: the partial product a^(n - 2^k) and the top square a^(2^k) are both
         // subnormal (zero low words), so the sign of the square's zero low word reaches the result
